@@ -34,7 +34,8 @@ theorem C11_step_clauses (cfg : Cfg) (ops : List Op) (hc : cfgWF cfg = true)
   have hs := C11_model_satisfies_spec cfg ops hc ho
   rw [htr] at hs
   have := specGo_split cfg h1 {} 0 op o h2 hs
-  exact (specObs_ok_iff cfg _ _ op o).mp this
+  obtain ⟨c1, c2, c3, c4, c5, _⟩ := (specObs_ok_iff cfg _ _ op o).mp this
+  exact ⟨c1, c2, c3, c4, c5⟩
 
 /-- **Range.**  Every request frame written carries a tag in `[2, max − 1]`, and so does every
     tag given to a request. -/
